@@ -1,12 +1,18 @@
 package main
 
+import "strings"
+
 // Name sweeps: shallow scenarios over EVERY realizable subset (size <= k) of a pool of sharp
 // names. They complement the BFS checks, whose alphabets must stay small to go deep.
 
 var sharpNames = []string{
 	"d", "d-x", "d.c", "d0", "d x", "ad", "D", "a+b", "a(b", "a_b", "é",
 	"d/x", "d/y", "d/s/z", "d/s/t/u", "ad/x", "d x/f g", "d-x/x", "d_old", "dd/x", "p%sq/x",
+	longPath,
 }
+
+// longPath is 300 bytes long (each component well below 255): lengths above 255 need the full u16 of the index.
+var longPath = strings.Repeat("L", 100) + "/" + strings.Repeat("M", 100) + "/" + strings.Repeat("N", 98)
 
 // dirPrefixes returns the proper directory prefixes of the paths of a set.
 func dirPrefixes(set []string) []string {
